@@ -837,6 +837,25 @@ class MeshRegion:
         self.dx.centre = (self.psi_vals[2::2] - self.psi_vals[:-2:2])[:, numpy.newaxis]
         self.dx.ylow = (self.psi_vals[2::2] - self.psi_vals[:-2:2])[:, numpy.newaxis]
 
+        # Grid spacing at the x-faces (xlow and corner locations) is the difference in
+        # psi between the cell centres on either side of the face. At a boundary of the
+        # grid, use twice the distance from the face to the adjacent cell centre.
+        psi_centre = self.psi_vals[1::2]
+        dx_faces = numpy.zeros(self.nx + 1)
+        dx_faces[1:-1] = psi_centre[1:] - psi_centre[:-1]
+        inner = self.getNeighbour("inner")
+        if inner is not None:
+            dx_faces[0] = psi_centre[0] - inner.psi_vals[-2]
+        else:
+            dx_faces[0] = 2.0 * (psi_centre[0] - self.psi_vals[0])
+        outer = self.getNeighbour("outer")
+        if outer is not None:
+            dx_faces[-1] = outer.psi_vals[1] - psi_centre[-1]
+        else:
+            dx_faces[-1] = 2.0 * (self.psi_vals[-1] - psi_centre[-1])
+        self.dx.xlow = dx_faces[:, numpy.newaxis]
+        self.dx.corners = dx_faces[:, numpy.newaxis]
+
         if self.psi_vals[0] > self.psi_vals[-1]:
             # x-coordinate is -psixy so x always increases radially across grid
             self.bpsign = -1.0
